@@ -551,13 +551,18 @@ package tabular
 //@ -- tableErrs: shorthand for the table's error list
 //@ spec terrs(t *ATable) Slice = t.ErrorContainer.errors_
 
+//@ -- add-time firing counters (C13): how often the column-level / table-level cell callback sets were run
+//@ ghost var addColFires Int
+//@ ghost var addTblFires Int
+
 //@ func (*ATable).AddRow
 //@   tags C02,C11,C13,C09
 //@   requires [table] WF(t) && tblProps(t) && colsOwn(t) && len(t.rows) <= 1099511627774
 //@   requires [row] WFrow(row) && rowProps(row) && cellsOwn(row) && len(row.cells) <= 1099511627774
 //@   requires [row-cells-not-shared] (forall i int :: {t.rows[i]} 0 <= i && i < len(t.rows) ==> t.rows[i].cells.arr != row.cells.arr) && (t.headerRow != nil ==> t.headerRow.cells.arr != row.cells.arr && t.headerRow != row)
 //@   requires [row-errors-separate] row.ErrorContainer != t.ErrorContainer && (row.ErrorContainer != nil ==> len(row.ErrorContainer.errors_) == 0 || row.ErrorContainer.errors_.arr != t.ErrorContainer.errors_.arr)
-//@   assigns t.rows, elemscap(t.rows), row.inTable, row.rowNum, row.ErrorContainer, t.columns, t.nColumns, elemscap(t.columns), new(column), t.ErrorContainer.errors_, elemscap(t.ErrorContainer.errors_), row.properties, elems(row.cells).properties, new(valueProperty), ghost cbErrN, ghost cbErrLog, ghost cbCallN, ghost cbCallSelf, ghost cbCallOwner
+//@   assigns t.rows, elemscap(t.rows), row.inTable, row.rowNum, row.ErrorContainer, t.columns, t.nColumns, elemscap(t.columns), new(column), t.ErrorContainer.errors_, elemscap(t.ErrorContainer.errors_), row.properties, elems(row.cells).properties, new(valueProperty), ghost cbErrN, ghost cbErrLog, ghost cbCallN, ghost cbCallSelf, ghost cbCallOwner, ghost addColFires, ghost addTblFires
+//@   ensures [column-and-table-cell-callbacks-once-per-cell] addColFires == old(addColFires) + len(row.cells) && addTblFires == old(addTblFires) + len(row.cells) @C13
 //@   ensures [invariant] WF(t) @C02,C09
 //@   ensures [appended] len(t.rows) == old(len(t.rows)) + 1 && t.rows[len(t.rows)-1] == row && row.rowNum == len(t.rows) && row.inTable == t @C02
 //@   ensures [earlier-rows-kept] forall i int :: {t.rows[i]} {old(t.rows[i])} 0 <= i && i < old(len(t.rows)) ==> t.rows[i] == old(t.rows[i]) @C02
@@ -584,12 +589,17 @@ package tabular
 //@   loop#1 invariant (t.ErrorContainer.errors_.arr == old(t.ErrorContainer.errors_.arr) && t.ErrorContainer.errors_.off == old(t.ErrorContainer.errors_.off) && t.ErrorContainer.errors_.cap == old(t.ErrorContainer.errors_.cap)) || fresh(t.ErrorContainer.errors_)
 //@   loop#1 invariant (t.rows.arr == old(t.rows.arr) && t.rows.off == old(t.rows.off) && t.rows.cap == old(t.rows.cap)) || fresh(t.rows)
 //@   loop#1 invariant (t.columns.arr == old(t.columns.arr) && t.columns.off == old(t.columns.off) && t.columns.cap == old(t.columns.cap)) || fresh(t.columns)
+//@   loop#1 invariant [cell-callbacks-so-far] addColFires == old(addColFires) + rangeindex + 1 && addTblFires == old(addTblFires) + rangeindex + 1
+//@   call invokePropertyCallbacks#3 before assert [column-cell-callbacks-get-the-live-cell-at-add-time] arg1 == 0 && arg2 == mkiface(type[*Cell], box(&row.cells[rangeindex + 1])) @C13
+//@   call invokePropertyCallbacks#3 after ghost addColFires = addColFires + 1
+//@   call invokePropertyCallbacks#4 before assert [table-cell-callbacks-get-the-live-cell-at-add-time] arg1 == 0 && arg2 == mkiface(type[*Cell], box(&row.cells[rangeindex + 1])) @C13
+//@   call invokePropertyCallbacks#4 after ghost addTblFires = addTblFires + 1
 //@   loop#1 decreases len(row.cells) - rangeindex
 
 //@ func (*ATable).AppendNewRow
 //@   tags C02,C09
 //@   requires [table] WF(t) && tblProps(t) && colsOwn(t) && len(t.rows) <= 1099511627774
-//@   assigns t.rows, elemscap(t.rows), new(Row), t.columns, t.nColumns, elemscap(t.columns), new(column), t.ErrorContainer.errors_, elemscap(t.ErrorContainer.errors_), new(valueProperty), ghost cbErrN, ghost cbErrLog, ghost cbCallN, ghost cbCallSelf, ghost cbCallOwner
+//@   assigns t.rows, elemscap(t.rows), new(Row), t.columns, t.nColumns, elemscap(t.columns), new(column), t.ErrorContainer.errors_, elemscap(t.ErrorContainer.errors_), new(valueProperty), ghost cbErrN, ghost cbErrLog, ghost cbCallN, ghost cbCallSelf, ghost cbCallOwner, ghost addColFires, ghost addTblFires
 //@   ensures [invariant] WF(t) && tblProps(t) && colsOwn(t)
 //@   ensures [appended] len(t.rows) == old(len(t.rows)) + 1 && t.rows[len(t.rows)-1] == result && fresh(result) && len(result.cells) == 0 && !result.isSeparator && result.rowNum == len(t.rows) && result.inTable == t @C02
 //@   ensures [earlier-rows-kept] forall i int :: {t.rows[i]} {old(t.rows[i])} 0 <= i && i < old(len(t.rows)) ==> t.rows[i] == old(t.rows[i]) @C02
@@ -600,7 +610,7 @@ package tabular
 //@   tags C02,C09
 //@   requires [table] WF(t) && tblProps(t) && colsOwn(t) && len(t.rows) <= 1099511627774 && len(items) <= 1099511627774
 //@   requires [nested-cells-ok] forall i int :: {items[i]} 0 <= i && i < len(items) ==> (dyn(items[i]) == type[Cell] ==> cellValOK(items[i].(Cell)))
-//@   assigns t.rows, elemscap(t.rows), new(Row), t.columns, t.nColumns, elemscap(t.columns), new(column), t.ErrorContainer.errors_, elemscap(t.ErrorContainer.errors_), new(valueProperty), new(ErrorContainer), ghost cbErrN, ghost cbErrLog, ghost cbCallN, ghost cbCallSelf, ghost cbCallOwner
+//@   assigns t.rows, elemscap(t.rows), new(Row), t.columns, t.nColumns, elemscap(t.columns), new(column), t.ErrorContainer.errors_, elemscap(t.ErrorContainer.errors_), new(valueProperty), new(ErrorContainer), ghost cbErrN, ghost cbErrLog, ghost cbCallN, ghost cbCallSelf, ghost cbCallOwner, ghost addColFires, ghost addTblFires
 //@   ensures [invariant] WF(t) && tblProps(t) && colsOwn(t)
 //@   ensures [appended] len(t.rows) == old(len(t.rows)) + 1 && fresh(t.rows[len(t.rows)-1]) && !t.rows[len(t.rows)-1].isSeparator && len(t.rows[len(t.rows)-1].cells) == len(items) @C02
 //@   ensures [items-in-order] forall k int :: {items[k]} 0 <= k && k < len(items) ==> t.rows[len(t.rows)-1].cells[k].raw === items[k] @C02
@@ -626,7 +636,8 @@ package tabular
 //@   tags C02,C11,C13,C09
 //@   requires [table] WF(t) && tblProps(t) && colsOwn(t) && len(items) <= 1099511627774
 //@   requires [nested-cells-ok] forall i int :: {items[i]} 0 <= i && i < len(items) ==> (dyn(items[i]) == type[Cell] ==> cellValOK(items[i].(Cell)))
-//@   assigns t.headerRow, new(Row), t.columns, t.nColumns, elemscap(t.columns), new(column), t.ErrorContainer.errors_, elemscap(t.ErrorContainer.errors_), new(valueProperty), ghost cbErrN, ghost cbErrLog, ghost cbCallN, ghost cbCallSelf, ghost cbCallOwner
+//@   assigns t.headerRow, new(Row), t.columns, t.nColumns, elemscap(t.columns), new(column), t.ErrorContainer.errors_, elemscap(t.ErrorContainer.errors_), new(valueProperty), ghost cbErrN, ghost cbErrLog, ghost cbCallN, ghost cbCallSelf, ghost cbCallOwner, ghost addColFires, ghost addTblFires
+//@   ensures [table-cell-callbacks-once-per-header-cell] addTblFires == old(addTblFires) + len(items) @C13
 //@   ensures [invariant] WF(t) && tblProps(t) && colsOwn(t)
 //@   ensures [header-set] t.headerRow != nil && fresh(t.headerRow) && len(t.headerRow.cells) == len(items) @C02
 //@   ensures [items-in-order] forall k int :: {items[k]} 0 <= k && k < len(items) ==> t.headerRow.cells[k].raw === items[k] @C02
@@ -643,6 +654,9 @@ package tabular
 //@   loop#1 invariant (t.ErrorContainer.errors_.arr == old(t.ErrorContainer.errors_.arr) && t.ErrorContainer.errors_.off == old(t.ErrorContainer.errors_.off) && t.ErrorContainer.errors_.cap == old(t.ErrorContainer.errors_.cap)) || fresh(t.ErrorContainer.errors_)
 //@   loop#1 decreases len(items) - rangeindex
 //@   loop#1 unfold chainOK(heap[valueProperty.chain], heap[valueProperty.key], heap[valueProperty.val], nil)
+//@   loop#2 invariant [header-cell-callbacks-so-far] addTblFires == old(addTblFires) + rangeindex + 1
+//@   call invokePropertyCallbacks#3 before assert [table-cell-callbacks-get-the-live-header-cell] arg1 == 0 && arg2 == mkiface(type[*Cell], box(&hr.cells[rangeindex + 1])) @C13
+//@   call invokePropertyCallbacks#3 after ghost addTblFires = addTblFires + 1
 //@   loop#2 invariant -1 <= rangeindex && rangeindex < len(hr.cells)
 //@   loop#2 invariant WF(t) && tblProps(t) && colsOwn(t) && t.headerRow == hr && fresh(hr) && cellsOwn(hr) && rowProps(hr) && len(hr.cells) == len(items) && t.rows === old(t.rows) && t.nColumns == max(old(t.nColumns), len(items)) && t.ErrorContainer == old(t.ErrorContainer)
 //@   loop#2 invariant forall k int :: {items[k]} 0 <= k && k < len(items) ==> hr.cells[k].raw === items[k]
